@@ -111,25 +111,29 @@ def calculateChunkForChunk (dd : List DimRec) (ntSize len done : Nat) (sbi spb :
 structure Piece where
   pos : Nat     -- `relative_posn` at the start of the pass (byte position in the element)
   chunk : Nat   -- `chunk_num` (the cache page is `chunk_num + 1`)
-  seek : Nat    -- `read_seek` / `write_seek`: byte offset inside the chunk buffer
+  seek : Nat    -- `read_seek + elem_off` / `write_seek + elem_off`: byte offset of the `memcpy` inside the chunk buffer
   size : Nat    -- `chunk_size`: bytes copied by the `memcpy`
 deriving Repr, DecidableEq
 
 /-- the `while (bytes_read < read_len)` loop shared by `HMCPread` and `HMCPwrite`.
+    A transfer may start inside an element: `elem_off = relative_posn % nt_size` (non-zero on the first pass only);
+    the piece is `calculate_chunk_for_chunk(len + elem_off, …) - elem_off` bytes and the `memcpy` starts at
+    `read_seek + elem_off` in the chunk buffer.
     `fuel` only makes the definition total: every pass copies ≥ 1 byte when all lengths are positive
-    (`walkLoop_tiles` in Lemmas/Chunk.lean), so `fuel = len` is enough. A non-positive `chunk_size` (the C would spin or run backwards)
-    stops the model; this never happens for positive geometry. -/
+    (`walkLoop_tiles` in Lemmas/Chunk.lean), so `fuel = len` is enough. A non-positive `chunk_size` (the C would spin
+    or run backwards) stops the model; this never happens for positive geometry. -/
 def walkLoop (dd : List DimRec) (ntSize len : Nat) : Nat → Nat → Nat → List Nat → List Nat → List Piece
   | 0, _, _, _, _ => []
   | fuel + 1, relPosn, done, sbi, spb =>
     if done < len then
       let chunkNum := calculateChunkNum dd sbi
-      let chunkSize := calculateChunkForChunk dd ntSize len done sbi spb
+      let elemOff := relPosn % ntSize                    -- elem_off = relative_posn % info->nt_size
+      let chunkSize := calculateChunkForChunk dd ntSize (len + elemOff) done sbi spb - (elemOff : Int)
       let seek := calculateSeekInChunk dd ntSize spb
       if chunkSize ≤ 0 then [] else
       let relPosn' := relPosn + chunkSize.toNat        -- relative_posn += chunk_size
       let ix := updateChunkIndicesSeek dd ntSize relPosn'
-      { pos := relPosn, chunk := chunkNum, seek := seek, size := chunkSize.toNat }
+      { pos := relPosn, chunk := chunkNum, seek := seek + elemOff, size := chunkSize.toNat }
         :: walkLoop dd ntSize len fuel relPosn' (done + chunkSize.toNat) ix.1 ix.2
     else []
 
@@ -194,9 +198,11 @@ def hmcpRead (e : Elem) (length : Int) : Option (List UInt8 × Elem) :=
   let ps := walk e.dd e.ntSize e.posn length.toNat
   some (readPieces e.store ps, { e with posn := e.posn + (ps.map (·.size)).sum })
 
-/-- `HMCPwrite(access_rec, length, datap)`; `length <= 0` fails. No check against the element end. -/
+/-- `HMCPwrite(access_rec, length, datap)`; `length <= 0` fails (DFE_RANGE); a write that would end past the (fixed)
+    element end is refused before anything is modified: `length > length*nt_size - posn` → FAIL (DFE_BADSEEK). -/
 def hmcpWrite (e : Elem) (data : List UInt8) : Option (Nat × Elem) :=
   if data.length == 0 then none else
+  if (data.length : Int) > (e.totalBytes : Int) - e.posn then none else
   let ps := walk e.dd e.ntSize e.posn data.length
   let n := (ps.map (·.size)).sum
   some (n, { e with store := writePieces e.store ps data, posn := e.posn + n })
